@@ -99,7 +99,7 @@ func (w *World) queryReach() *Reach {
 }
 
 func checkC19(w *World, r *Report) {
-	r.Explanation = "Structural clause of C19: (Q-1) from Query (call graph, including go-ethereum's callbacks into the scratch StateDBWrapper) no overlay method other than tree reads is called on a live ledger, no durable-write API of tm-db/iavl/go-ethereum is reachable, no in-memory controller state is written (only the receiver of the scratch wrapper), and the scratch wrapper is built from ImmutableStateAt with the immutable account handler; (Q-2) every ledger read in a query handler is a tree read (Read / IterateReadAllItems) on the value returned by ImmutableLedgerAt(h) with h data-dependent on the request height, and vm_call's state comes from ImmutableStateAt(h) likewise; (Q-3) RigoApp.Query maps height 0 to the last committed height and its dispatch lists exactly the paths the controllers handle; (Q-4) no version of any tree is ever deleted or overwritten anywhere in the module. (Q-5) every historical read is served from a tree object of its own (a fresh iavl tree on the ledger's database, loaded at exactly the requested version, a load error is returned) under a fresh empty overlay — an iavl tree object remembers what was the latest version when it was opened, so it must not be shared between requests (C18 L-3)."
+	r.Explanation = "Structural clause of C19: (Q-1) from Query (call graph, including go-ethereum's callbacks into the scratch StateDBWrapper) no overlay method other than tree reads is called on a live ledger, no durable-write API of tm-db/iavl/go-ethereum is reachable, no in-memory controller state is written (only the receiver of the scratch wrapper), and the scratch wrapper is built from ImmutableStateAt with the immutable account handler; (Q-2) every ledger read in a query handler is a tree read (Read / IterateReadAllItems) on the value returned by ImmutableLedgerAt(h) with h data-dependent on the request height, and vm_call's state comes from ImmutableStateAt(h) likewise; (Q-3) RigoApp.Query maps height 0 to the last committed height and its dispatch lists exactly the paths the controllers handle; (Q-4) no version of any tree is ever deleted or overwritten anywhere in the module. (Q-5) every historical read is served from a tree object of its own (a fresh iavl tree on the ledger's database, loaded at exactly the requested version, a load error is returned) under a fresh empty overlay — an iavl tree object remembers what was the latest version when it was opened, so it must not be shared between requests (C18 L-3). (Q-6) no function reachable from Query reads a controller field that block execution writes (candidate lists, validator sets, counters, the executing block context …): answers come from the immutable ledgers at the requested height, not from the in-memory state of the block that happens to be executing; the one listed exception is the last committed block context that supplies the default height."
 	r.NotCovered = "the returned bytes; races with a running block (Query takes no application mutex); `stakes/voting_power` answers with the current governance limits (not in the property's list); tendermint's rpc core used by vm_call for the block time."
 
 	reach := w.queryReach()
@@ -112,6 +112,8 @@ func checkC19(w *World, r *Report) {
 	q2(w, r, reach, scope)
 	q3(w, r)
 	q4(w, r)
+	q6(w, r, reach, scope)
+	r.Floor("Q-6", 1, "no in-memory consensus state on the query path")
 	// Q-5: a historical read gets a tree object of its own, loaded at exactly the
 	// requested version, under a fresh overlay (C18 L-3)
 	{
@@ -582,4 +584,82 @@ func q4(w *World, r *Report) {
 	} else {
 		r.Violate("Q-4", "history-never-deleted", "a committed version can be deleted or overwritten: answers for past heights would change", nil, bad...)
 	}
+}
+
+// q6 — queries must not read in-memory controller state that block execution writes.
+var q6Exceptions = map[string]string{
+	"RigoApp.lastBlockCtx":      "height 0 is replaced by the last committed height (Q-3); the field is assigned only by Commit (after the commit point) and Info",
+	"RigoApp.mtx":               "the application mutex",
+	"EVMCtrler.lastBlockHeight": "vm_call replaces height <= 0 by the EVM store's last committed height; the field is advanced only inside Commit",
+	"GovCtrler.GovParams":       "vm_call takes its execution environment (gas price, gas limits) from the active governance parameters; the state it reads is that of the requested height (ImmutableStateAt, E-5). The active parameters change only in Commit",
+}
+
+// controller objects whose fields are process-wide state (a StateDBWrapper is
+// per block or per call: the one a query uses is built for that query, C17 E-5)
+var q6Owners = map[string]bool{"RigoApp": true, "AcctCtrler": true, "StakeCtrler": true, "GovCtrler": true, "EVMCtrler": true, "StakeLimiter": true}
+
+func q6(w *World, r *Report, reach *Reach, scope []*ssa.Function) {
+	x := NewExecCtx(w)
+	written := consensusWrittenFields(w, x)
+	if len(written) < 5 {
+		r.Undecided("Q-6", "consensus-state", fmt.Sprintf("only %d controller fields written by block execution were found (floor 5)", len(written)))
+		return
+	}
+	type rd struct {
+		fn   *ssa.Function
+		in   ssa.Instruction
+		what string
+	}
+	reads := map[string][]rd{}
+	for _, fn := range scope {
+		for _, b := range fn.Blocks {
+			for _, in := range b.Instrs {
+				fa, ok := in.(*ssa.FieldAddr)
+				if !ok {
+					continue
+				}
+				n, f := fieldOf(fa.X.Type(), fa.Field)
+				if n == nil || f == nil {
+					continue
+				}
+				k := n.Obj().Name() + "." + f.Name()
+				if _, isW := written[k]; !isW || !q6Owners[n.Obj().Name()] {
+					continue
+				}
+				// only loads count (a query must not write either, but that is Q-1)
+				isLoad := false
+				if fa.Referrers() != nil {
+					for _, ref := range *fa.Referrers() {
+						if u, isU := ref.(*ssa.UnOp); isU && u.Op == token.MUL {
+							isLoad = true
+						}
+						if _, isC := ref.(ssa.CallInstruction); isC {
+							isLoad = true
+						}
+					}
+				}
+				if isLoad {
+					reads[k] = append(reads[k], rd{fn, in, w.Canon(fa)})
+				}
+			}
+		}
+	}
+	var keys []string
+	for k := range reads {
+		keys = append(keys, k)
+	}
+	sort.Strings(keys)
+	for _, k := range keys {
+		rs := reads[k]
+		var sites []string
+		for _, x := range rs {
+			sites = append(sites, site(w, x.in))
+		}
+		if why, ok := q6Exceptions[k]; ok {
+			r.OK("Q-6", "reads:"+k, "excepted: "+why, sites...)
+			continue
+		}
+		r.Violate("Q-6", "reads:"+k, fmt.Sprintf("a query path reads %s, which block execution writes (%s): the answer depends on the block that is executing instead of the state committed at the requested height", k, written[k][0]), map[string]interface{}{"path": reach.Path(rs[0].fn)}, sites...)
+	}
+	r.OK("Q-6", "scan", fmt.Sprintf("%d functions reachable from Query scanned against %d controller fields written by block execution", len(scope), len(written)))
 }
